@@ -126,14 +126,14 @@ func TestChooseGroupSize(t *testing.T) {
 		ok          bool
 	}{
 		{2048, 2048, 8192, 2048, true},
-		{1024, 1024, 8192, 2048, true},  // wanted clamps up to 2048
-		{2048, 2049, 8192, 3072, true},  // smallest >= wanted
+		{1024, 1024, 8192, 2048, true}, // wanted clamps up to 2048
+		{2048, 2049, 8192, 3072, true}, // smallest >= wanted
 		{2048, 3072, 8192, 3072, true},
-		{2048, 4097, 8192, 4096, true},  // none >= wanted: largest
+		{2048, 4097, 8192, 4096, true}, // none >= wanted: largest
 		{2048, 8192, 8192, 4096, true},
-		{2049, 2049, 3071, 0, false},    // nothing in range
+		{2049, 2049, 3071, 0, false}, // nothing in range
 		{3073, 3073, 4095, 0, false},
-		{2048, 4096, 3072, 3072, true},  // wanted above max (request itself is invalid, see GexRequestValid)
+		{2048, 4096, 3072, 3072, true}, // wanted above max (request itself is invalid, see GexRequestValid)
 		{4097, 8192, 8192, 0, false},
 		{0, 0, 0xffffffff, 2048, true},
 	}
